@@ -531,7 +531,7 @@ theorem reset_C {s : St} {a : Sp} (h : Rel s a) :
     Rel (if s.c.det then applyGen s .C Gen.detReset.index' Gen.detReset.cached' Gen.detReset.pub' 0
          else applyGen s .C Gen.consReset.index' Gen.consReset.cached' Gen.consReset.pub' 0)
         (if a.detC then a.setPos .C (a.limit .C)
-         else { a.setPos .C (a.limit .C) with pubC := a.limit .C, mask := a.mask ++ List.replicate (a.limit .C - a.pubC) false }) := by
+         else { a with posC := a.limit .C, pubC := a.limit .C, mask := a.mask ++ List.replicate (a.limit .C - a.pubC) false }) := by
   have hs := succIdx_eq h .C
   simp only [Sp.leadPub] at hs
   have hlc := h.leC; have hoc := h.ordC
@@ -540,7 +540,7 @@ theorem reset_C {s : St} {a : Sp} (h : Rel s a) :
   · have key := h.moveC (if a.hasW then a.pubW else a.pubP) 0 true
       (a.mask ++ List.replicate ((if a.hasW then a.pubW else a.pubP) - a.pubC) false) a.delivered
       (by omega) (Nat.le_refl _) (Nat.zero_le _) (by simp) (by simp [h.mask_len]; omega)
-    simp only [if_true] at key
+    simp only [if_true, hd] at key
     simp only [Bool.false_eq_true, if_false, applyGen, St.it, St.setIt, St.setPub, pubFld, Gen.consPub, Gen.consReset.index', Gen.consReset.cached',
       Gen.consReset.pub', hs, Sp.setPos, Sp.limit]
     exact key
@@ -800,6 +800,14 @@ theorem poke_rel {s : St} {a : Sp} (h : Rel s a) (r : Role) (k v : Nat) (hr : r 
     · exact absurd rfl hP
     · exact this
     · exact this
+
+theorem applyGen_it (s : St) (r : Role) (fi fc fp) (n : Nat) :
+    ((applyGen s r fi fc fp n).it r).cached = fc (s.it r).idx (s.it r).cached (succIdx s r) s.len n 0 ∧
+    ((applyGen s r fi fc fp n).it r).idx = fi (s.it r).idx (s.it r).cached (succIdx s r) s.len n 0 ∧
+    ((applyGen s r fi fc fp n).it r).live = (s.it r).live ∧ ((applyGen s r fi fc fp n).it r).det = (s.it r).det ∧
+    (applyGen s r fi fc fp n).hasW = s.hasW ∧ (applyGen s r fi fc fp n).len = s.len ∧ (applyGen s r fi fc fp n).slots = s.slots := by
+  cases r <;> simp only [applyGen, St.it, St.setIt, succIdx] <;> split <;> simp [St.setPub, pubFld] <;>
+    first | rfl | (cases Gen.prodPub <;> simp) | (cases Gen.workPub <;> simp) | (cases Gen.consPub <;> simp)
 
 /-- `advanceGlobal` only touches the iterator and the published index. -/
 theorem applyGen_setSlot (s : St) (r : Role) (fi fc fp) (n i v : Nat) :
